@@ -542,6 +542,16 @@ pub unsafe extern "C" fn fcntl(fd: i32, cmd: i32, arg: libc::c_long) -> i32 {
     } else if cmd == libc::F_DUPFD || cmd == libc::F_DUPFD_CLOEXEC {
         ledger_open(r, "fcntl_dupfd");
         rec(|| Ev::Dup { fd, r, cloexec: r >= 0 && is_cloexec(r) });
+    } else if cmd == libc::F_SETFD && (arg & libc::FD_CLOEXEC as libc::c_long) != 0 && LEDGER_ON.load(Ordering::SeqCst) {
+        // close-on-exec added in a second step: between the creation of the descriptor and this call a process spawned by
+        // another thread inherits it (every creation path of the library asks for the flag atomically)
+        IN_HOOK.with(|h| {
+            if !h.get() {
+                h.set(true);
+                LEDGER.lock().unwrap().not_cloexec.insert((fd, "created without close-on-exec, flag added later by fcntl(F_SETFD)"));
+                h.set(false);
+            }
+        });
     }
     set_errno(e);
     r
